@@ -281,6 +281,12 @@ class Loader(yaml.SafeLoader):
             except SeasoningError as e:
                 raise RecognitionError(
                         '{}\n{}'.format(node.start_mark, e))
+            if hasattr(recognized_type, '_yatiml_savorize'):
+                # a savorize function may use one node in two places,
+                # e.g. for an attribute that defaults to another one;
+                # these are processed separately too
+                self.__reject_recursion(node, (), set())
+                node = self.__unshared(node)
         logger.debug('Savorized, now {}'.format(node))
 
         # process subnodes
